@@ -78,6 +78,15 @@ func storeScenarios(u idpUser) []scenario {
 			b.jarFromHeader(e.issueSessionCookie(s))
 			return reqSpec{Target: "/app/x", Cookie: b.cookieHeader()}, b
 		}},
+		{name: "relogin", ops: []string{"save#1"}, setup: func(e *testEnv) (reqSpec, *browser) {
+			// a login completed by a browser that still holds a LIVE session cookie (the store re-uses its ticket / key)
+			b := newBrowser()
+			b.jarFromHeader(e.issueSessionCookie(e.sessionFor(idpUser{Sub: "earlier-user", Email: "earlier@example.com", EmailVerified: true}, 30*time.Second)))
+			_, loc := e.startLogin(b, "/after")
+			cb, _, _ := e.idp.authorize(loc, u)
+			cu, _ := url.Parse(cb)
+			return reqSpec{Target: cu.RequestURI(), Cookie: b.cookieHeader()}, b
+		}},
 		{name: "readiness", ops: []string{"ping#1"}, setup: func(e *testEnv) (reqSpec, *browser) {
 			return reqSpec{Target: "/ready"}, newBrowser()
 		}},
@@ -382,8 +391,18 @@ func init() {
 								// a lock that could not be acquired must not let the refresh proceed: the once-per-session guarantee rests on it
 								c.violation("C12", "refresh proceeded although the refresh lock could not be acquired (Redis error on the lock command)", input)
 							}
-						case cmd == "SET" && hasSessionSet(v, e.opts.Cookie.Name) && sc.name == "login":
+						case cmd == "SET" && hasSessionSet(v, e.opts.Cookie.Name) && (sc.name == "login" || sc.name == "relogin"):
 							c.violation("C13", "session cookie handed out although the Redis write failed", input)
+							if sc.name == "relogin" {
+								// which session does that cookie load? (the earlier user's entry is still under the re-used key)
+								nb := newBrowser()
+								if v.raw != nil {
+									nb.apply(v.raw)
+								}
+								if r2 := e.do(reqSpec{Target: "/app/whoami", Cookie: nb.cookieHeader()}); len(r2.Hits) > 0 {
+									input["cookie_now_loads_user"] = r2.Hits[0].Header.Get("X-Forwarded-User")
+								}
+							}
 						case cmd == "DEL" && sc.name == "signout" && v.Status == 302:
 							c.violation("C13", "sign-out reported success although the Redis delete failed", input)
 						case cmd == "PING" && sc.name == "readiness" && v.Status == 200:
@@ -398,6 +417,12 @@ func init() {
 			if redis {
 				for _, sc := range storeScenarios(u) {
 					rs, b := sc.setup(e)
+					if sc.name == "readiness" {
+						// a probe that succeeded a moment ago must not vouch for the store now
+						if pre := e.do(rs); pre.Status != 200 {
+							c.violation("HARNESS", "readiness probe of a healthy store failed", pre.Status)
+						}
+					}
 					e.redisOutage.Store(true)
 					v, real := e.serveCase(rs, nil, "redisoutage:"+sc.name)
 					e.redisOutage.Store(false)
